@@ -671,10 +671,61 @@ fn part_c(acc: &mut Acc) {
     }
 }
 
+// ---------------------------------------------------------------------------------------------
+// part D: a handler directly after a BLOCK operand (the comma in front of a handler is optional there)
+// ---------------------------------------------------------------------------------------------
+fn part_d(acc: &mut Acc) {
+    let insts = instances();
+    let blocks = ["{ m9 }", "{ let k = 1; m9(k) }", "{ |v| m9(v) }", "{ { m9 } }"];
+    for t in insts.iter().cloned().filter(|t| t.0 != usize::MAX && !t.2) {
+        let (_, name, kind, _) = OPS[t.0];
+        if !(kind == 1 || kind == 2) || name == "Dot" {
+            continue;
+        }
+        for blk in blocks.iter() {
+            for pre in 0..=2usize {
+                // `pre` ordinary operators in front of the block-operand operator
+                for (hk, htxt) in [("then", "then => |a| hh(a)"), ("map", "map => |a| hh(a)"), ("and_then", "and_then => |a| hh(a)")] {
+                    for nb in 1..=3usize {
+                        for comma in [false, true] {
+                            let mut c = 0usize;
+                            let mut chain: Vec<Inst> = vec![];
+                            for _ in 0..pre {
+                                chain.push(mk_inst((0, false, false, 0), &mut c, true));
+                            }
+                            let mut last = mk_inst(t, &mut c, false);
+                            let n = last.operands.len();
+                            last.operands[n - 1] = blk.to_string();
+                            chain.push(last);
+                            let mut texts = vec![];
+                            let mut brs = vec![];
+                            // the block-ending branch is the LAST branch in front of the handler
+                            for bi in 0..nb {
+                                let init = format!("i{}", bi);
+                                let (t_, s_) = if bi == nb - 1 { render_chain(&init, None, &chain, false) } else { render_chain(&init, Some(&format!("n{}", bi)), &[mk_inst((1, true, false, 0), &mut c, true)], false) };
+                                texts.push(t_);
+                                brs.push(s_);
+                            }
+                            let mut txt = texts.join(", ");
+                            txt.push_str(if comma { ", " } else { " " });
+                            txt.push_str(htxt);
+                            acc.check(&txt, &Structure { branches: brs.clone(), handler: Some((hk.to_string(), norm("|a| hh(a)"))) }, "D:handler-after-block-operand");
+                            // ... and a further branch after the handler
+                            let (t2, s2) = render_chain("i9", None, &[mk_inst((0, false, false, 0), &mut c, true)], false);
+                            brs.push(s2);
+                            acc.check(&format!("{}, {}", txt, t2), &Structure { branches: brs, handler: Some((hk.to_string(), norm("|a| hh(a)"))) }, "D:handler-after-block-operand");
+                        }
+                    }
+                }
+            }
+        }
+    }
+}
+
 pub fn run(args: &[String]) {
-    // args: <max chain length for part A> [parts: abc]
+    // args: <max chain length for part A> [parts: abcd]
     let maxlen: usize = args[0].parse().unwrap();
-    let parts = args.get(1).cloned().unwrap_or_else(|| "abc".to_string());
+    let parts = args.get(1).cloned().unwrap_or_else(|| "abcd".to_string());
     let t0 = std::time::Instant::now();
     let cur = std::sync::Arc::new(std::sync::Mutex::new(vec![String::from("c14")]));
     watchdog(30, cur);
@@ -696,6 +747,7 @@ pub fn run(args: &[String]) {
                 'a' => part_a(maxlen, &mut acc, w, 14),
                 'b' => part_b(&mut acc),
                 'c' => part_c(&mut acc),
+                'd' => part_d(&mut acc),
                 _ => {}
             }
             (part, acc)
